@@ -699,9 +699,20 @@ impl RouterWorld {
         let name = self.clients[ci].name.clone();
         let old = self.clients[ci].link.take();
         let pending = {
+            // an MQTT 5 client registers its will with properties
+            let will_props = (self.clients[ci].v5 && will.is_some()).then(|| bp::LastWillProperties {
+                delay_interval: None,
+                payload_format_indicator: Some(1),
+                message_expiry_interval: Some(3600),
+                content_type: Some("text/will".into()),
+                response_topic: Some("resp/w".into()),
+                correlation_data: Some(bytes::Bytes::from_static(&[9, 9])),
+                user_properties: vec![("k".into(), "v".into())],
+            });
             let b = rumqttd::local::LinkBuilder::new(&name, self.tx.clone())
                 .clean_session(clean)
                 .last_will(will.clone())
+                .last_will_properties(will_props)
                 .topic_alias_max(topic_alias_max);
             match b.verif_split() {
                 Ok(p) => p,
